@@ -106,9 +106,18 @@ type Step struct {
 	Nw   bool        `json:"nw,omitempty"` // do not wait for quiescence after this step
 }
 
+// runners are self-contained scenario executors for families that do not use
+// the client/server runtime below (transports, demux, proxy, parsers ...).
+// A runner emits its own Begin ... End lines through tr.emit; raw is the
+// scenario's JSON line, for family-specific fields.
+type runnerFn func(t *testing.T, sc *Scenario, raw []byte)
+
+var runners = map[string]runnerFn{}
+
 type Scenario struct {
 	Sc     int    `json:"sc"`
 	Fam    string `json:"fam"`
+	Runner string `json:"runner"`
 	Topo   string `json:"topo"` // direct (default) | proxy | demux | pd
 	Ser    bool   `json:"ser"`
 	Manual bool   `json:"manual"` // deliveries released by dlv steps
